@@ -5,7 +5,7 @@ import (
 	"io"
 	"strings"
 
-	"golang.org/x/tools/go/ssa"
+	"verif/third_party/xtools/go/ssa"
 )
 
 // Dump prints a function in the checker's vocabulary: per block its guards,
